@@ -836,6 +836,14 @@ func newIndexTerms(insts []string, have []string, max int, atoms bool) []string 
 			seen["0"] = true
 			found = append(found, "0")
 		}
+		if t.head() == "select" && len(t.list) == 3 && t.list[1].head() == "select" && len(t.list[1].list) == 3 && t.list[1].list[1].isAtom() && strings.HasPrefix(t.list[1].list[1].atom, "G!") {
+			// position in a two-dimensional ghost (byte j of write k, byte i of buffer b)
+			x := t.list[2].String()
+			if !seen[x] && len(x) < 160 && !strings.Contains(x, "q!") {
+				seen[x] = true
+				found = append(found, x)
+			}
+		}
 		if t.head() == "+" && len(t.list) == 3 && t.list[1].head() == "soff" {
 			x := t.list[2].String()
 			if !seen[x] && len(x) < 160 && !strings.Contains(x, "q!") {
